@@ -32,9 +32,57 @@ def check(ctx):
     configs = ["native", "portable"] if ctx.tier == "quick" else ["native", "portable", "native-rel", "portable-rel"]
     for cfg in configs:
         check_config(ctx, ctx.facts(cfg), "@" + cfg, cfg)
+    if ctx.tier == "thorough":
+        import poscontrol
+        poscontrol.run(ctx, "C17")
+
+
+WIDTHS = {"u8": 8, "u16": 16, "u32": 32, "u64": 64, "usize": 64, "i8": 8, "i16": 16, "i32": 32, "i64": 64, "isize": 64, "u128": 128, "i128": 128}
+
+
+def narrow_complement_masks(F):
+    """`!x` computed in an unsigned type narrower than the type it is then used in as an and-mask: zero-extension clears every
+    bit above the narrow width, so the mask is never the mathematical complement. Returns [(fn, from, to, where)]."""
+    from facts import operand_place
+    hits = []
+    for b in F.all_bodies():
+        if "::tests::" in b.name or b.name.startswith("internal::"):
+            continue
+        widened = {}
+        for bi, si, st in b.stmts():
+            if st["s"] == "assign" and st["rv"]["r"] == "cast" and st["rv"]["kind"] == "IntToInt" and not st["lhs"]["p"]:
+                p = operand_place(st["rv"]["o"])
+                if p is None or p["p"]:
+                    continue
+                frm, to = b.local_ty(p["l"]), st["rv"]["ty"]
+                if frm in WIDTHS and to in WIDTHS and WIDTHS[frm] < WIDTHS[to] and frm.startswith("u"):
+                    inner = b.term_of_operand(st["rv"]["o"])
+                    if any(x[0] == "un" and x[1] == "Not" for x in subterms(inner) if x[0] != "cast" or True) and not any(
+                            x[0] == "cast" and x[2] in WIDTHS and WIDTHS[x[2]] >= WIDTHS[to] for x in subterms(inner)):
+                        widened[st["lhs"]["l"]] = (frm, to, st["sp"])
+        if not widened:
+            continue
+        for bi, si, st in b.stmts():
+            if st["s"] == "assign" and st["rv"]["r"] == "bin" and st["rv"]["op"] == "BitAnd":
+                for o in (st["rv"]["a"], st["rv"]["b"]):
+                    p = operand_place(o)
+                    while p is not None and not p["p"] and p["l"] not in widened:
+                        ds = [d for d in b.defs().get(p["l"], []) if d[2] == "assign"]
+                        if len(ds) == 1 and ds[0][3]["r"] == "use" and len(b.defs().get(p["l"], [])) == 1:
+                            p = operand_place(ds[0][3]["o"])
+                        else:
+                            break
+                    if p is not None and not p["p"] and p["l"] in widened:
+                        frm, to, sp = widened[p["l"]]
+                        hits.append((b.name, frm, to, loc(sp)))
+    return hits
 
 
 def check_config(ctx, F, tag, cfg):
+    # ---------------- R5 mask width
+    hits = narrow_complement_masks(F)
+    ctx.ob("C17.R5.mask-complement-width", "crate" + tag, "src/", not hits, "dataflow",
+           "and-masks built by widening the complement of a narrower unsigned value (count must be 0): %s" % hits[:4], nontrivial=False)
     # ---------------- R1 tables
     low = F.const("bits::LOW_SET")
     high = F.const("bits::HIGH_SET")
